@@ -327,7 +327,19 @@ def check_writer(sub, case):
         path = os.path.join(folder, "written.xlsx")
         try:
             writer = rowio.XlsxRowWriter(path)
-            if case.get("row_by_row"):
+            split = case.get("split")
+            if split is not None and rows:
+                # the table arrives in several calls: |split| rows one by one, the others at once (before or after)
+                k = min(abs(split), len(rows))
+                if split > 0:
+                    for row in rows[:k]:
+                        writer.write_row(row)
+                    writer.write_rows(rows[k:])
+                else:
+                    writer.write_rows(rows[:len(rows) - k])
+                    for row in rows[len(rows) - k:]:
+                        writer.write_row(row)
+            elif case.get("row_by_row"):
                 for row in rows:
                     writer.write_row(row)
             else:
@@ -336,7 +348,7 @@ def check_writer(sub, case):
             actual = list(rowio.excel_rows(path, 1))
         except Exception as error:
             sub.fail("C16|exception|%s|writer-%s" % (
-                type(error).__name__, "write_row" if case.get("row_by_row") else "write_rows"), case,
+                type(error).__name__, "write_row" if case.get("row_by_row") else ("mixed" if case.get("split") else "write_rows")), case,
                 "writing %r with XlsxRowWriter and reading it back raised %s: %s" % (
                     rows, type(error).__name__, error))
             return
@@ -613,7 +625,10 @@ def writer_cases(draw):
         widest = max(range(len(rows)), key=lambda y: (len(rows[y]), y))
         if rows[widest][-1] == "":
             rows[widest][-1] = filler
-    return {"kind": "writer", "rows": rows, "row_by_row": draw(st.booleans())}
+    case = {"kind": "writer", "rows": rows, "row_by_row": draw(st.booleans())}
+    if len(rows) >= 2 and draw(st.integers(0, 2)) == 0:
+        case["split"] = draw(st.integers(1, len(rows) - 1)) * draw(st.sampled_from([1, -1]))
+    return case
 
 
 # -- hand-picked regression cases ----------------------------------------------------------------------------------
@@ -644,6 +659,15 @@ CORPUS = [
     ]},
     {"kind": "writer", "rows": [["=1+1", "1.0", ""], ["x"], ["", "ä€", " y "]], "row_by_row": False},
     {"kind": "writer", "rows": [], "row_by_row": False},
+    # the same stored serial number read in both date systems, one workbook after the other in one process: it
+    # denotes dates 1462 days apart (whatever a reader remembers about a serial must not cross workbooks)
+    {"kind": "workbook", "options": {}, "sheets": [[[["d", "2020-05-17 13:45:10", 0], ["d", "1999-12-31 00:00:00", 1]]]]},
+    {"kind": "workbook", "options": {"date_1904": True}, "sheets": [[[["d", "2024-05-18 13:45:10", 0],
+                                                                      ["d", "2004-01-01 00:00:00", 1]]]]},
+    {"kind": "workbook", "options": {}, "sheets": [[[["d", "2020-05-17 13:45:10", 0], ["d", "1999-12-31 00:00:00", 1]]]]},
+    # a table handed over in several calls: single rows first, the rest at once, and the other way round
+    {"kind": "writer", "rows": [["head", "er"], ["a", "b"], ["c", "d"], ["e", "f"]], "split": 1},
+    {"kind": "writer", "rows": [["head", "er"], ["a", "b"], ["c", "d"], ["e", "f"]], "split": -1},
 ]
 
 
